@@ -339,7 +339,7 @@ func Spec() *mon.Spec {
 			"the evaluation of `put <text>` is taken as 'evaluating the text printed by repr'",
 		},
 		ChildSetup: setup,
-		Phases:     []mon.Phase{{Name: "value", Quick: 24000, Thorough: 250000, Run: runValue}},
+		Phases:     []mon.Phase{{Name: "value", Quick: 24000, Thorough: 200000, Run: runValue}},
 		Floors: map[string]int{"distinct_nontrivial": 3000, "values_order_checked": 2000, "values_with_hash_colliding_keys": 50,
 			"values_with_nan": 200, "multiline_pretty": 3000, "pretty_with_map_pair": 1500, "numbers_big.Rat": 1000, "numbers_big.Int": 1000, "numbers_float64": 5000,
 			"builtin_eq_checks": 1000, "depth": 5},
